@@ -6,7 +6,7 @@ import ast
 from .. import AnalysisError
 from ..model import resolve_handler
 from ..ratfun import Rat
-from ..rules import (handler_summaries, is_raising, mapper_node_pairs, where)
+from ..rules import (effective_member, handler_summaries, is_raising, mapper_node_pairs, where)
 from ..summary import NODE, base_field, contains, summarize
 
 DIFF = "pymbolic.mapper.differentiator"
@@ -102,6 +102,45 @@ def run(ctx):
     check_cse_mixin(ctx, model)
 
 
+def _is_log_function(dm, callee):
+    """the callee is the symbol `log`: Variable("log") / var("log") built on the
+    spot, or an attribute of the mapper whose class-level default is that"""
+    def is_log_ctor_value(v):
+        return isinstance(v, tuple) and v[0] == "call" and \
+            v[1].split(".")[-1] in ("var", "Variable", "make_variable") and \
+            v[2] == (("const", "log"),)
+    if is_log_ctor_value(callee):
+        return True
+    if isinstance(callee, tuple) and callee[0] == "self":
+        mem = dm.members.get(callee[1])
+        if mem is not None and mem.kind in ("value", "ann"):
+            val = mem.node.value if mem.kind == "ann" else mem.node
+            return isinstance(val, ast.Call) and ast.unparse(val.func).split(
+                ".")[-1] in ("var", "Variable", "make_variable") and \
+                len(val.args) == 1 and isinstance(val.args[0], ast.Constant) \
+                and val.args[0].value == "log"
+    return False
+
+
+def _gated(model, mem):
+    """every returning path of the handler has passed a test of the mapper's
+    allowed_nonsmoothness setting, and some path under such a test raises"""
+    fn = model.inlined(mem.node)
+    SETTING = ("self", "allowed_nonsmoothness")
+
+    def mentions(v):
+        return v == SETTING or (isinstance(v, tuple) and contains(
+            v, lambda t: t == SETTING))
+    raises = False
+    for ps in summarize(fn):
+        tested = any(isinstance(v, tuple) and mentions(v) for _, _, v in ps.conds)
+        if ps.term == "raise":
+            raises = raises or tested
+        elif not tested:
+            return False
+    return raises
+
+
 def _refusal(ctx, model, dm):
     nt = model.nodes
     n = 0
@@ -112,7 +151,15 @@ def _refusal(ctx, model, dm):
         handled = not (res.via == "unsupported" or is_raising(mem))
         want = node.name in DIFFERENTIABLE
         ok = handled == want or (not handled)
-        if handled and not want:
+        if handled and not want and mem.owner is dm and _gated(model, mem):
+            # a rule of the mapper's own for a node outside the listed
+            # fragment, refused unless the caller allows non-smoothness: the
+            # property neither lists the node nor is contradicted by it
+            ctx.ob(f"D4/DifferentiationMapper/{node.name}", True, where(mem),
+                   f"{node.name}: own rule, refused unless non-smoothness is "
+                   "allowed (outside the listed fragment, not judged)",
+                   nontrivial=False)
+        elif handled and not want:
             ctx.ob(f"D4/DifferentiationMapper/{node.name}", False, where(mem),
                    f"DifferentiationMapper handles {node.name} (via "
                    f"{'/'.join(chain)}) although it has no differentiation rule: "
@@ -356,7 +403,9 @@ def _quotient_power(ctx, model, dm):
                     return "df"
                 if b == ("field", gf) or b == und(gf):
                     return "dg"
-            if v[0] == "call" and v[1] == "log" and v[2] == (und(ff),):
+            if v[0] == "call" and v[2] == (und(ff),) and _is_log_function(
+                    dm, v[4] if len(v) > 4 else
+                    ("self", v[1][5:]) if v[1].startswith("self.") else None):
                 return "L"
             if v[0] == "binop" and v[1] == "Pow" and v[2] == und(ff):
                 e = v[3]
@@ -561,7 +610,7 @@ def _linear_rules(ctx, model, dm):
            "CSE(x)' = CSE(x')" if ok else
            "the CSE rule does not rebuild the wrapper around the derivative of "
            "its child")
-    mc = model.lookup(dm, "map_common_subexpression")
+    mc = effective_member(model, dm, "map_common_subexpression")
     ok = mc is not None and mc.owner.name == "CSECachingMapperMixin"
     ctx.ob("S/cse-mixin", ok, dm.loc(), "CSE derivatives are cached per mapper")
 
